@@ -10,7 +10,8 @@
 From Coq Require Import ZArith List Bool Lia.
 From EC Require Import Lib.Outcome Lib.ListW Model.Msgs Model.Replica Model.ReplicaRun Model.Protocol
   Model.ProtocolSync Proofs.ReplicaLive Proofs.ProtocolRefinesExec Proofs.ProtocolRefinesExample
-  Proofs.ProtocolLive Proofs.ProtocolLiveInv Proofs.ProtocolLiveExample.
+  Proofs.ProtocolLive Proofs.ProtocolLiveInv Proofs.ProtocolLiveExample
+  Proofs.ProtocolLiveCatch Proofs.ProtocolLiveGoals.
 From EC Require Proofs.ReplicaCaches Proofs.ReplicaJustified.
 Import ListNotations.
 Open Scope Z_scope.
@@ -165,7 +166,83 @@ Theorem C06G_catch_up_two_rounds : forall P pay s h k,
 Proof. exact catch_up_two_rounds. Qed.
 Print Assumptions C06G_catch_up_two_rounds.
 
+(* (b), complete: within three rounds every running honest node reaches the view any honest node
+   was running in at the start -- provided no honest node stops (Panic / RBlocked / RInternal)
+   during the first two rounds (the remaining obligation [C06_no_stop]) and the durable view
+   numbers have headroom.  [up s k] = node k is running, [hview] = its view, [dview] = its durable
+   view. *)
+Theorem C06G_catch_up_three_rounds : forall P, params_ok P -> forall pay s h k,
+  preach P s ->
+  let s1 := sync_round P pay s in
+  let s2 := sync_round P pay s1 in
+  let s3 := sync_round P pay s2 in
+  (forall k', honestb P k' = true -> up s1 k' /\ up s2 k') ->
+  (forall k', honestb P k' = true -> dview s k' + 4 < U64.U64) ->
+  honestb P h = true -> honestb P k = true -> up s h -> up s3 k ->
+  hview s h <= hview s3 k.
+Proof. exact catch_up_three_rounds. Qed.
+Print Assumptions C06G_catch_up_three_rounds.
+
+Theorem C06G_up_hview_dview_unfold : forall s k,
+  (up s k <-> n_alive (g_node s k) = true) /\ hview s k = r_view (n_live (g_node s k)) /\
+  dview s k = d_view (n_dur (g_node s k)).
+Proof. exact (fun s k => conj (iff_refl _) (conj eq_refl eq_refl)). Qed.
+Print Assumptions C06G_up_hview_dview_unfold.
+
+(* ingredients of the proof, of independent interest *)
+(* a verifying commit / timeout certificate without forged honest signatures is never ahead of
+   every honest node's durable view (Layer A + B) *)
+Theorem C06G_cqc_view_bound : forall P, params_ok P -> forall s q,
+  preach P s -> ProtocolRefinesStep.gq (pcfg P 0) (honestb P) (g_soup s) q ->
+  exists k, honestb P k = true /\ vnum (cview (qmsg q)) <= dview s k.
+Proof. exact cqc_view_bound. Qed.
+Print Assumptions C06G_cqc_view_bound.
+
+Theorem C06G_tqc_view_bound : forall P, params_ok P -> forall s t,
+  preach P s -> tqc_verify (p_g P) (p_e P) (p_C P) t = Ok tt ->
+  ProtocolRefinesStep.kt (honestb P) (g_soup s) t ->
+  exists k, honestb P k = true /\ vnum (tqview t) <= dview s k.
+Proof. exact tqc_view_bound. Qed.
+Print Assumptions C06G_tqc_view_bound.
+
+(* during a round nobody gets more than one view ahead of the durable views at its start *)
+Theorem C06G_round_view_bound : forall P, params_ok P -> forall (pay : Z -> Z) s0 t k B,
+  preach P s0 -> RInv P (g_soup s0) t -> (forall k', honestb P k' = true -> dview s0 k' <= B) ->
+  honestb P k = true -> up t k ->
+  hview t k <= B + 1 /\ 0 <= hview t k /\
+  (forall j, get_justification (n_live (g_node t k)) = Ok j -> just_vnum j <= B).
+Proof. exact round_cert_bound. Qed.
+Print Assumptions C06G_round_view_bound.
+
+(* at the end of a round a running honest node has announced its view, or it sits in phase
+   Commit in a view it entered during the round through a proposal of the snapshot *)
+Theorem C06G_round_end : forall P, params_ok P -> forall pay s k B Bv,
+  preach P s -> honestb P k = true ->
+  let s0 := revive_all P s in
+  let s1 := sync_round P pay s in
+  (forall k', honestb P k' = true -> dview s0 k' <= B) -> B + 1 < U64.U64 ->
+  prop_bound P (g_soup s0) Bv -> up s1 k ->
+  ann_own P s1 k \/
+  (r_phase (n_live (g_node s1 k)) = PCommit /\ hview s1 k <= Bv /\ hview s1 k <> hview s0 k).
+Proof. exact round_end. Qed.
+Print Assumptions C06G_round_end.
+
+(* (d) as first stated is false of the model *)
+Theorem C06G_aligned_view_commits_4_refuted : ~ C06_aligned_view_commits 4.
+Proof. exact aligned_view_commits_refuted. Qed.
+Print Assumptions C06G_aligned_view_commits_4_refuted.
+
 (* ---- non-vacuity ---- *)
+Example C06G_example_catch_up_hyps :
+  let s := ginit ex_P in
+  let s1 := sync_round ex_P ex_pay s in
+  let s2 := sync_round ex_P ex_pay s1 in
+  (forall k, honestb ex_P k = true -> up s1 k /\ up s2 k) /\
+  (forall k, honestb ex_P k = true -> dview s k + 4 < U64.U64) /\
+  (forall k, honestb ex_P k = true -> up s k).
+Proof. exact ex_catch_up_hyps. Qed.
+Print Assumptions C06G_example_catch_up_hyps.
+
 Example C06G_example_rounds :
   env_ok ex_P ex_pay /\ preach ex_P (sync_rounds ex_P ex_pay 5 (ginit ex_P)) /\
   map (fun r => ex_heights [1; 2; 3; 4] (sync_rounds ex_P ex_pay r (ginit ex_P))) [1; 2; 3; 4; 5]%nat =
@@ -195,67 +272,17 @@ Proof. exact (conj ex_P6_ok ex_byz_leader_obs). Qed.
 Print Assumptions C06G_example_byz_leader.
 
 (* ================================================================== *)
-(* NOT PROVED: the remaining statements of C06, as definitions          *)
+(* NOT PROVED: the remaining statements of C06 (definitions in Proofs/ProtocolLiveGoals.v)  *)
 (* ================================================================== *)
-Definition up (s : gstate) (k : Z) : Prop := n_alive (g_node s k) = true.
-Definition hview (s : gstate) (k : Z) : Z := r_view (n_live (g_node s k)).
-Definition height (s : gstate) (k : Z) : Z := r_store_next (n_live (g_node s k)).
-(* arithmetic headroom: no view or block number on the network or in a node is within B of
-   2^64 (view.next() / number.next() panic on overflow with checks on: known finding) *)
-Definition cmsg_view (x : cmsg) : Z :=
-  match x with
-  | MProposal _ j | MNewView j => match j with JCommit q => vnum (cview (qmsg q)) | JTimeout t => vnum (tqview t) end
-  | MCommit c => vnum (cview c)
-  | MTimeout t => vnum (tview t)
-  end.
-Definition headroom (P : params) (s : gstate) (B : Z) : Prop :=
-  (forall k, honestb P k = true -> hview s k + B < U64.U64 /\ height s k + B < U64.U64) /\
-  (forall m, In m (g_soup s) -> cmsg_view (m_msg m) + B < U64.U64).
-
-(* (b), complete form: within [R] rounds every running honest node reaches the view any
-   running honest node had at the start *)
-Definition C06_catch_up (R : nat) : Prop :=
-  forall P pay, params_ok P -> env_ok P pay -> forall s, preach P s -> headroom P s (Z.of_nat R + 2) ->
-  forall h k, honestb P h = true -> honestb P k = true -> up s h -> up (sync_rounds P pay R s) k ->
-  hview s h <= hview (sync_rounds P pay R s) k.
-
+(* (b) in the exact form: follows from C06G_catch_up_three_rounds and C06_no_stop *)
+Definition C06_catch_up := ProtocolLiveGoals.C06_catch_up.
+(* honest nodes do not stop during a synchronous suffix with headroom *)
+Definition C06_no_stop := ProtocolLiveGoals.C06_no_stop.
 (* (c) alignment *)
-Definition aligned (P : params) (s : gstate) (V : Z) : Prop :=
-  forall k, honestb P k = true -> up s k /\ hview s k = V /\
-    (r_phase (n_live (g_node s k)) = Prepare \/ r_phase (n_live (g_node s k)) = PTimeout).
-Definition C06_sync_rounds_align (R : nat) : Prop :=
-  forall P pay, params_ok P -> env_ok P pay -> forall s, preach P s -> headroom P s (Z.of_nat R + 2) ->
-  exists V, aligned P (sync_rounds P pay R s) V /\ forall k, honestb P k = true -> hview s k <= V.
-
-(* (d) an aligned view with an honest leader commits *)
-Definition C06_aligned_view_commits (R : nat) : Prop :=
-  forall P pay, params_ok P -> env_ok P pay -> forall s V, preach P s -> headroom P s (Z.of_nat R + 2) ->
-  aligned P s V -> honestb P (cleader (pcfg P 0) V) = true ->
-  forall k, honestb P k = true -> height s k < height (sync_rounds P pay R s) k.
-
-(* (e) bounded progress with a silent adversary: [nbyz] bounds the number of consecutive views
-   after alignment whose leader is Byzantine; conjectured bound 2 * nbyz + 6 rounds (observed in
-   the examples: two rounds per view, three rounds to align) *)
-Definition byz_run (P : params) (V : Z) (nbyz : nat) : Prop :=
-  exists i, (i <= nbyz)%nat /\ honestb P (cleader (pcfg P 0) (V + Z.of_nat i)) = true.
-Definition C06_progress_partial : Prop :=
-  forall P pay nbyz, params_ok P -> env_ok P pay -> forall s, preach P s ->
-  headroom P s (2 * Z.of_nat nbyz + 8) ->
-  (forall V, byz_run P V nbyz) ->
-  forall k, honestb P k = true ->
-    height s k < height (sync_rounds P pay (2 * nbyz + 6) s) k.
-
-(* the full statement: the adversary keeps injecting messages between the rounds *)
-Inductive byz_steps (P : params) : gstate -> gstate -> Prop :=
-| BSNil s : byz_steps P s s
-| BSCons s m s' : adv_ok P (g_soup s) m -> byz_steps P (add_msg s m) s' -> byz_steps P s s'.
-Inductive adv_suffix (P : params) (pay : Z -> Z) : nat -> gstate -> gstate -> Prop :=
-| ASNil s : adv_suffix P pay 0 s s
-| ASRound n s s1 s' : byz_steps P s s1 -> adv_suffix P pay n (sync_round P pay s1) s' ->
-                      adv_suffix P pay (S n) s s'.
-Definition C06_full : Prop :=
-  forall P pay nbyz, params_ok P -> env_ok P pay -> forall s, preach P s ->
-  (forall V, byz_run P V nbyz) ->
-  exists R, forall s', adv_suffix P pay R s s' ->
-    (forall m, In m (g_soup s') -> cmsg_view (m_msg m) + 2 < U64.U64) ->
-    forall k, honestb P k = true -> height s k < height s' k.
+Definition C06_sync_rounds_align := ProtocolLiveGoals.C06_sync_rounds_align.
+(* (d) first statement: refuted above for R = 4; corrected statement with a notified leader *)
+Definition C06_aligned_view_commits := ProtocolLiveGoals.C06_aligned_view_commits.
+Definition C06_aligned_view_commits' := ProtocolLiveGoals.C06_aligned_view_commits'.
+(* (e) and the full statement *)
+Definition C06_progress_partial := ProtocolLiveGoals.C06_progress_partial.
+Definition C06_full := ProtocolLiveGoals.C06_full.
